@@ -60,6 +60,16 @@ def session_plan(pp, o2, u2):
                     "menu": [("a",), ("a", "b")], "costs": [QUICK_MENU[0], QUICK_MENU[4]]})
         out.append({"slice": "poly-session:3x3x2", "family": "unordered", "poly": True, "session": True, "osh": osh, "ssh": ssh,
                     "menu": [("a",), ("a", "b"), ("b",)], "costs": [QUICK_MENU[0], QUICK_MENU[4]]})
+    # binary trees, the TOPOLOGY of the one object tree edited in place between solves: the same root node object is given
+    # every object shape of 2..4 leaves in turn (Session.rebuild; one shard per rotation of the sequence, the inputs of
+    # each shape divided among the rotations)
+    base = [osh for n in (3, 4, 2) for osh in spaces.binary_shapes(n)]
+    for ssh in list(spaces.binary_shapes(1)) + list(spaces.binary_shapes(2)):
+        for rot in range(len(base)):
+            seq = base[rot:] + base[:rot] + [base[rot]]
+            for fam, menu in (("ordered", o2), ("unordered", u2)):
+                out.append({"slice": "retopology-session:2..4x2x2", "family": fam, "session": True, "osh": seq[0], "oshs": seq,
+                            "ssh": ssh, "menu": menu, "costs": [QUICK_MENU[0]], "part": (rot, len(base))})
     return out
 
 
@@ -134,8 +144,8 @@ def check_plain(algo, O, S, leafmap, costs, policy):
     return None, len(res), tr
 
 
-def check_labelled_binary(algo, O, S, leafmap, leafsyn, costs, policy):
-    r = L.run_labelled(algo, O, S, leafmap, leafsyn, costs, policy)
+def check_labelled_binary(algo, O, S, leafmap, leafsyn, costs, policy, session=None):
+    r = L.run_labelled(algo, O, S, leafmap, leafsyn, costs, policy, session=session)
     if r.error:
         return ("exception", r.error + "\n" + (r.trace or "")), 0, False
     tr = False
@@ -264,7 +274,20 @@ def run_shard(shard, tier, seed):
     sess = None
     if shard.get("session"):
         sess = A.Session(O, S, labelled=True, unordered=(fam != "ordered"))
-    for leafmap, leafsyn in L.labelled_inputs(O, S, shard["menu"], shard.get("part")):
+    def inputs():
+        if not shard.get("oshs"):
+            for lm, ls in L.labelled_inputs(O, S, shard["menu"], shard.get("part")):
+                yield shard["osh"], O, lm, ls
+            return
+        for i, osh_i in enumerate(shard["oshs"]):
+            O_i = T(osh_i)
+            if i:
+                sess.rebuild(O_i)
+                counters["topology_edits"] = counters.get("topology_edits", 0) + 1
+            for lm, ls in L.labelled_inputs(O_i, S, shard["menu"], shard.get("part")):
+                yield osh_i, O_i, lm, ls
+
+    for osh, O, leafmap, leafsyn in inputs():
         if sess is not None and fam == "ordered" and not ordered.root_orders(leafsyn):
             continue
         n_inputs += 1
